@@ -514,6 +514,21 @@ class State:
                     got = B.simplexWithFaces(c, list(tup))
                     if got != byfaces.get(frozenset(tup)):
                         return 'FAIL simplexWithFaces(%r) = %r, the simplex with exactly these faces is %r' % (list(tup), got, byfaces.get(frozenset(tup)))
+        # the fatal=True forms raise for a non-basis and leave the complex as it was
+        before = full_state(c)
+        for q in ([('no', 'such', 'point')], pts[:1] + [('no', 'such', 'point')], [n for n in nm if B.orderOf(c, n) > 0][:1] + pts[:1]):
+            if not q or B.isBasis(c, q):
+                continue
+            for call in (lambda: c.simplexWithBasis(q, fatal=True), lambda: c.isBasis(q, fatal=True), lambda: c.containsSimplexWithBasis(q, fatal=True)):
+                try:
+                    r = call()
+                    return 'FAIL a look-up with fatal=True returned %r for %r, which is not a basis' % (r, q)
+                except (KeyError, ValueError):
+                    pass
+                except TypeError:
+                    pass            # (a form that does not take the argument)
+        if full_state(c) != before:
+            return 'FAIL a look-up with fatal=True changed the complex'
         names = list(nm)
         cl = {s: set(B.closureOf(c, s)) for s in names}
         for r in (2, 3):
@@ -582,6 +597,13 @@ class State:
             if list(z.keys()) != list(dict.fromkeys(ks)):
                 return 'FAIL Z(%r) has keys %r' % (ks, list(z.keys()))
             r = self._zcheck(c, mo, z, 'Z(%r)' % (ks,))
+            if r:
+                return r
+        for arg in (iter(asc), tuple(asc), (k for k in asc), reversed(asc)):
+            z = B.Z(c, arg)
+            if sorted(z.keys()) != asc:
+                return 'FAIL Z(%s of %r) has keys %r' % (type(arg).__name__, asc, list(z.keys()))
+            r = self._zcheck(c, mo, z, 'Z(%s)' % type(arg).__name__)
             if r:
                 return r
         dflt = B.Z(c)
@@ -666,6 +688,42 @@ class State:
             return 'FAIL input is not a sub-complex of its flag complex'
         if famof(f.flagComplex()) != famof(f):
             return 'FAIL flagComplex is not idempotent'
+        return 'ok'
+
+    def o_growfilt(self, seed):
+        """a filtration is a complex: edges added at its last index and growFlagComplex there give the clique complex
+        of the graph, and the complexes seen at the earlier indices are as before"""
+        import random
+        rng = random.Random(int(seed))
+        n = rng.randrange(4, 8)
+        edges = [e for e in itertools.combinations(range(n), 2) if rng.random() < 0.6]
+        rng.shuffle(edges)
+        k = rng.randrange(0, len(edges) + 1)
+        f = Filtration(0)
+        for p in range(n):
+            f.addSimplex(id=p)
+        g = SimplicialComplex()
+        for p in range(n):
+            g.addSimplex(id=p)
+        f.setIndex(1)
+        for (a, b) in edges[:k]:
+            f.addSimplex(fs=[a, b], id=('e', a, b)); g.addSimplex(fs=[a, b], id=('e', a, b))
+        try:
+            f.growFlagComplex([('e', a, b) for (a, b) in edges[:k]])
+            early = famof(f)
+            f.setIndex(2)
+            new = []
+            for (a, b) in edges[k:]:
+                new.append(f.addSimplex(fs=[a, b], id=('e', a, b)))
+            f.growFlagComplex(new)
+        except Exception as x:
+            return 'FAIL growFlagComplex on a filtration raised %s: %s' % (type(x).__name__, x)
+        want = clique_family(frozenset([frozenset([p]) for p in range(n)] + [frozenset(e) for e in edges]))
+        if famof(f) != want:
+            return 'FAIL growing a filtration at its last index: family %r, cliques %r' % (_short(famof(f)), _short(want))
+        f.setIndex(1)
+        if frozenset(frozenset(B.basisOf(f, s)) for s in f.simplices()) != early:
+            return 'FAIL growing at the last index changed the complex seen at an earlier one'
         return 'ok'
 
     def o_samefam(self, ha, hb):
@@ -931,6 +989,9 @@ class State:
         for s in sa:
             if B.orderOf(a, s) != B.orderOf(b, s) or B.faces(a, s) != B.faces(b, s) or B.getAttributes(a, s) != B.getAttributes(b, s):
                 return 'FAIL %r differs between source and copy' % (s,)
+            if set(B.basisOf(a, s)) != set(B.basisOf(b, s)) or \
+               (not isinstance(a, Filtration) and not isinstance(b, Filtration) and set(B.cofaces(a, s)) != set(B.cofaces(b, s))):
+                return 'FAIL basis or cofaces of %r differ between source and copy' % (s,)
             t = [x for x in B.simplices(b) if x == s][0]
             if type(t) is not type(s):
                 return 'FAIL type of name %r changed' % (s,)
@@ -1168,6 +1229,12 @@ class State:
 
     # ---- C13 / C14 -------------------------------------------------------------------------------------
     def o_filt(self, h):
+        try:
+            return self._filt_body(h)
+        except Exception as x:      # every call inside is a public call on a filtration with valid arguments
+            return 'FAIL %s raised while the filtration was inspected: %s' % (type(x).__name__, x)
+
+    def _filt_body(self, h):
         f = copy.deepcopy(self.C(h))     # the oracle moves the index: work on a copy
         cur = f.getIndex()
         ss = B.simplices(f)
@@ -1257,6 +1324,12 @@ class State:
         return 'ok'
 
     def o_filtq(self, h):
+        try:
+            return self._filtq_body(h)
+        except Exception as x:      # every call inside is a public call on a filtration with valid arguments
+            return 'FAIL %s raised while the filtration was inspected: %s' % (type(x).__name__, x)
+
+    def _filtq_body(self, h):
         """C14: every read-only query at every index answers as the snapshot taken there"""
         f = copy.deepcopy(self.C(h))
         cur = f.getIndex()
@@ -1312,6 +1385,12 @@ class State:
         return out
 
     def o_nav(self, h):
+        try:
+            return self._nav_body(h)
+        except Exception as x:      # every call inside is a public call on a filtration with valid arguments
+            return 'FAIL %s raised while the filtration was inspected: %s' % (type(x).__name__, x)
+
+    def _nav_body(self, h):
         f = copy.deepcopy(self.C(h))     # the oracle moves the index: work on a copy
         cur = f.getIndex(); inds = f.indices()
         if cur not in inds:
@@ -1384,6 +1463,11 @@ class State:
                     try:
                         p = e.positionOf(s)
                         return 'FAIL position request for %r of order %d returned %r instead of raising ValueError' % (s, c.orderOf(s), p)
+                    except ValueError:
+                        pass
+                    try:
+                        p = e[s]
+                        return 'FAIL e[%r] for a simplex of order %d returned %r instead of raising ValueError' % (s, c.orderOf(s), p)
                     except ValueError:
                         pass
                 break
